@@ -700,7 +700,7 @@ package lorawan
 //@   props C09 C10
 //@   modifies *p
 //@   ensures C01,C09/len: err == nil && len(p.Bytes) == len(data)
-//@   ensures C01/copy: forall i int :: 0 <= i && i < len(data) ==> p.Bytes[i] == data[i]
+//@   ensures C01/copy: eqbytes(p.Bytes, data)
 //@   ensures C10/fresh: fresh(p.Bytes)
 
 // ---------------------------------------------------------------------------
@@ -1138,3 +1138,30 @@ package lorawan
 //@   requires typed-nil: istype(p.MACPayload, "*JoinAcceptPayload") ==> as(p.MACPayload, "*JoinAcceptPayload") != nil
 //@   modifies nothing
 //@   ensures C04/validate: err == nil ==> result0 == (p.MIC == callres("(PHYPayload).calculateDownlinkJoinMIC", 0)[0])
+
+// ---------------------------------------------------------------------------
+// C01 / C08 frame lemmas: the frame encoders / decoders are inlined (real bodies)
+// ---------------------------------------------------------------------------
+//@ func bytesEqualVerif
+//@   modifies nothing
+//@   ensures eq: result <==> eqbytes(a, b)
+//@   loop 0: invariant idx: rangeindex >= 0 - 1 && rangeindex < len(a) && len(a) == len(b)
+//@   loop 0: invariant prefix: eqbytes(a[:rangeindex+1], b[:rangeindex+1])
+//@   loop 0: decreases len(a) - rangeindex
+//@ func lemmaC08_canonical
+//@   inline
+//@ func lemmaC08_canonical_JoinRequest
+//@   props C08
+//@   inlines (*PHYPayload).UnmarshalBinary (*MACPayload).UnmarshalBinary (*FHDR).UnmarshalBinary (PHYPayload).MarshalBinary (MACPayload).MarshalBinary (MACPayload).marshalPayload (FHDR).MarshalBinary
+//@ func lemmaC08_canonical_JoinAccept
+//@   props C08
+//@   inlines (*PHYPayload).UnmarshalBinary (*MACPayload).UnmarshalBinary (*FHDR).UnmarshalBinary (PHYPayload).MarshalBinary (MACPayload).MarshalBinary (MACPayload).marshalPayload (FHDR).MarshalBinary
+//@ func lemmaC08_canonical_Data
+//@   props C08
+//@   inlines (*PHYPayload).UnmarshalBinary (*MACPayload).UnmarshalBinary (*FHDR).UnmarshalBinary (PHYPayload).MarshalBinary (MACPayload).MarshalBinary (MACPayload).marshalPayload (FHDR).MarshalBinary
+//@ func lemmaC08_canonical_RejoinRequest
+//@   props C08
+//@   inlines (*PHYPayload).UnmarshalBinary (*MACPayload).UnmarshalBinary (*FHDR).UnmarshalBinary (PHYPayload).MarshalBinary (MACPayload).MarshalBinary (MACPayload).marshalPayload (FHDR).MarshalBinary
+//@ func lemmaC08_canonical_Proprietary
+//@   props C08
+//@   inlines (*PHYPayload).UnmarshalBinary (*MACPayload).UnmarshalBinary (*FHDR).UnmarshalBinary (PHYPayload).MarshalBinary (MACPayload).MarshalBinary (MACPayload).marshalPayload (FHDR).MarshalBinary
